@@ -205,3 +205,128 @@ Print Assumptions c06_enc_limit_error.
 Print Assumptions c06_enc_error_keeps_prefix.
 Print Assumptions c06_prefix_delivered.
 Print Assumptions c06_prefix_delivered_any_failure.
+
+(* ---- the configured limits reach the streams (server::Grpc / client::Grpc, Model/Call.v) ---- *)
+From Verif Require Gen.CompressionTables Model.Call Proofs.Call.
+Import Gen.CompressionTables Model.Call.
+
+(* max_decoding_message_size of the server is the limit of the request stream, the client's
+   the limit of the response stream; max_encoding_message_size is the limit of the EncodeBody of
+   the same side (4 MiB / usize::MAX when not set) *)
+Theorem c06_call_limits_wired :
+  forall (cl sv : side) (e : option encoding) (http : N),
+    limit_of (dec_new Request e (max_dec sv)) = dec_limit (max_dec sv) /\
+    limit_of (dec_new (Response http) e (max_dec cl)) = dec_limit (max_dec cl) /\
+    Encoder.limit_of (cfg_with cl (send_enc cl)) =
+      match max_enc cl with Some l => l | None => Encoder.DEFAULT_MAX_SEND_MESSAGE_SIZE end /\
+    forall chosen, Encoder.limit_of (cfg_with sv chosen) =
+      match max_enc sv with Some l => l | None => Encoder.DEFAULT_MAX_SEND_MESSAGE_SIZE end.
+Proof. exact Call.stream_limits. Qed.
+
+(* a request whose first chunk holds a prefix that declares more than the SERVER's
+   max_decoding_message_size is refused with OUT_OF_RANGE by server::Grpc: the handler of a
+   unary-request shape is not called (the status goes back as a trailers-only response), the
+   handler of a streaming-request shape gets the error from its request stream *)
+Theorem c06_call_request_over_limit :
+  forall (msg : Type) (deser : list N -> option msg) (decompress : encoding -> list N -> option (list N))
+         (sv : side) (sh : shape) (headers : hm) (a b c x : N) (more : list N) (rest : list bev) (fuel : nat),
+    hm_get_all headers hdr_grpc_encoding = [] ->
+    dec_limit (max_dec sv) < un_be32 a b c x -> (1 <= fuel)%nat ->
+    server_receive msg deser decompress sv sh headers (BData (0 :: a :: b :: c :: x :: more) :: rest) None fuel =
+    if req_streaming sh then SeenStream headers [] (EndErr st_too_large) else SeenRejected st_too_large.
+Proof. exact Call.request_over_limit. Qed.
+
+(* the same for a response and the CLIENT's max_decoding_message_size: the response stream
+   yields Err(OUT_OF_RANGE), the unary client API returns it *)
+Theorem c06_call_response_over_limit :
+  forall (msg : Type) (deser : list N -> option msg) (decompress : encoding -> list N -> option (list N))
+         (cl : side) (sh : shape) (md : hm) (a b c x : N) (more : list N) (rest : list bev) (fuel : nat),
+    hm_get_all md hdr_grpc_encoding = [] ->
+    dec_limit (max_dec cl) < un_be32 a b c x -> (1 <= fuel)%nat ->
+    client_call msg deser decompress cl sh 200 (Call.response_headers md)
+                (BData (0 :: a :: b :: c :: x :: more) :: rest) fuel =
+    if resp_streaming sh then CRStream (Call.response_headers md) [] (EndErr st_too_large)
+    else CRErr (with_md st_too_large (Metadata.merge [] (Call.response_headers md))).
+Proof. exact Call.response_over_limit. Qed.
+
+(* a first request message whose on-the-wire payload exceeds the CLIENT's
+   max_encoding_message_size is not sent: no DATA, the body fails with OUT_OF_RANGE (what a
+   server's max_encoding_message_size does to a response is c02_response_stream with
+   fin = Some (st_too_large ..): the messages before it, then that status) *)
+Theorem c06_call_request_over_enc_limit :
+  forall (msg : Type) (ser : msg -> option (list N)) (compress : encoding -> list N -> list N)
+         (cl : side) (m : msg) (p : list N) (rest : list (Encoder.item msg)) (src : list (Encoder.sevent msg)),
+    Encoder.items_of src = Encoder.IOk m :: rest ->
+    Encoder.payload_of ser compress (cfg_with cl (send_enc cl)) m = Some p ->
+    match max_enc cl with Some l => l | None => Encoder.DEFAULT_MAX_SEND_MESSAGE_SIZE end < nlen p ->
+    concat (Encoder.datas_of (request_frames msg ser compress cl src)) = [] /\
+    non_data (request_frames msg ser compress cl src) =
+      [Encoder.FErr (Encoder.st_too_large (nlen p)
+         (match max_enc cl with Some l => l | None => Encoder.DEFAULT_MAX_SEND_MESSAGE_SIZE end))].
+Proof. exact Call.request_over_enc_limit. Qed.
+Print Assumptions c06_call_request_over_limit.
+Print Assumptions c06_call_response_over_limit.
+Print Assumptions c06_call_request_over_enc_limit.
+
+(* ---- KNOWN FINDING F-C06b: client role over a real HTTP/2 connection ------------------------ *)
+(* The class [KnownC06_request_body_fails]: the request body fails (here: a message over the
+   client's max_encoding_message_size) AND the transport is a real connection ([call_result_h2]:
+   hyper turns an error of the request body into RST_STREAM(INTERNAL_ERROR)).
+   OUTSIDE the class a real connection is the transport of the theorems above
+   ([c06_real_transport_outside_class]), and everything stated for the server role (trailers
+   carry OUT_OF_RANGE: c06_prefix_delivered and the c06_call theorems) is unaffected.
+   INSIDE the class the property's "ends the call with OUT_OF_RANGE" FAILS: the caller's call
+   ends with INTERNAL ([c06_client_reset_refuted], the witness replayed by the harness as
+   corpus.h2.limit.client_max_encoding); what does hold inside the class is
+   [c06_client_reset_class]: the call fails (never succeeds), with the code Status::from_error
+   derives from the reset, the oversized message and everything after it are not sent
+   (c06_call_request_over_enc_limit), and the server side sees exactly the reset - observed on
+   hyper 1.x / h2 0.4: the DATA sent before the reset is NOT delivered to the handler's stream,
+   so inside the class "earlier messages are delivered" does not hold for a streaming request. *)
+Theorem c06_client_reset_class :
+  forall tbl cl sv sh md req reads h fuel qh,
+    request_headers cl md = Some qh ->
+    Call.KnownC06_request_body_fails tbl cl req ->
+    fst (call_result_h2 tbl cl sv sh md req reads h fuel) = Some (CRErr st_stream_reset) /\
+    st_code st_stream_reset = Code_Internal /\
+    snd (call_result_h2 tbl cl sv sh md req reads h fuel) =
+      server_receive (list N) deser_id (decompress_of tbl) sv sh qh [BErr st_stream_reset]
+                     (option_map N.to_nat reads) (N.to_nat fuel).
+Proof. exact Call.client_reset_class. Qed.
+
+Theorem c06_real_transport_outside_class :
+  forall tbl cl sv sh md req reads h fuel,
+    ~ Call.KnownC06_request_body_fails tbl cl req ->
+    call_result_h2 tbl cl sv sh md req reads h fuel =
+    call_result tbl cl sv sh md req [] [] reads h [] [] fuel.
+Proof. exact Call.real_transport_outside_class. Qed.
+
+(* exists x, Known x /\ ~ P x *)
+Theorem c06_client_reset_refuted :
+  let cl := mk_side (Some 5) None None [] [] in
+  let req := [inl (Some [66; 66; 66; 66; 66; 66])] in
+  Call.KnownC06_request_body_fails [] cl req /\
+  body_error (request_frames (list N) ser_id (compress_of []) cl (map sev_of req)) =
+    Some (Encoder.st_too_large 6 5) /\
+  st_code (Encoder.st_too_large 6 5) = Code_OutOfRange /\
+  call_result_h2 [] cl default_side Unary [] req None (inl ([], [inl (Some [])])) 20 =
+    (Some (CRErr st_stream_reset), SeenRejected st_stream_reset) /\
+  st_code st_stream_reset = Code_Internal /\ Code_Internal <> Code_OutOfRange.
+Proof. exact Call.client_reset_refuted. Qed.
+Print Assumptions c06_client_reset_class.
+Print Assumptions c06_client_reset_refuted.
+
+(* the constants written by hand in the models equal the ones regenerated from the Rust source
+   (Gen/ConstTables.v, rewritten by rs2v on every run): prefix size, default receiving limit
+   4 MiB, default sending limit usize::MAX, default buffer settings *)
+From Verif Require Gen.ConstTables Proofs.ConstTies.
+Import Gen.ConstTables.
+Theorem c06_constants_tied :
+  Frame.HEADER_SIZE = codec_header_size /\
+  Decoder.DEFAULT_MAX_RECV_MESSAGE_SIZE = codec_default_max_recv_message_size /\
+  Encoder.DEFAULT_MAX_SEND_MESSAGE_SIZE = codec_default_max_send_message_size /\
+  Encoder.DEFAULT_CODEC_BUFFER_SIZE = codec_default_buffer_size /\
+  Encoder.DEFAULT_YIELD_THRESHOLD = codec_default_yield_threshold /\
+  Encoder.val_application_grpc = grpc_content_type.
+Proof. exact ConstTies.codec_constants_tied. Qed.
+Print Assumptions c06_constants_tied.
